@@ -492,7 +492,9 @@ func dialRawFrom(host, localIP string) (*rawClient, error) {
 func runBindControl(c BindCase) (*bindStats, error) {
 	st := &bindStats{}
 	desc := SimpleDesc([]int{1, 1})
-	w, err := StartWorld(WorldCfg{UDP: true, Desc: desc, ReadTimeout: 5 * time.Second, WriteTimeout: 5 * time.Second, IdleTimeout: 20 * time.Second, Wildcard: c.Wildcard})
+	// the victim sends no media while it is attacked: a recording session must not run into its read timeout meanwhile
+	// (tunnelled attacks from another address take seconds each on a busy machine)
+	w, err := StartWorld(WorldCfg{UDP: true, Desc: desc, ReadTimeout: 90 * time.Second, WriteTimeout: 5 * time.Second, IdleTimeout: 90 * time.Second, Wildcard: c.Wildcard})
 	if err != nil {
 		return st, nil
 	}
@@ -664,7 +666,7 @@ func runBindControl(c BindCase) (*bindStats, error) {
 	evs := w.H.Events()
 	for _, e := range evs[evBefore:] {
 		if e.Sess >= 0 && w.H.Session(e.Sess) == ss && (e.Conn != victimConn || e.Kind == "sessclose") {
-			return st, fmt.Errorf("after the refused requests the victim session saw handler event %q (connection %d, the session's own connection is %d)", e.Kind, e.Conn, victimConn)
+			return st, fmt.Errorf("after the refused requests the victim session saw handler event %q (connection %d, the session's own connection is %d; %s)", e.Kind, e.Conn, victimConn, e.Err)
 		}
 	}
 	if got := ss.State(); got != stateBefore {
